@@ -148,6 +148,7 @@ impl Prop for C16 {
             Part { name: "literal-flag-q".into(), strategy: s3, cases: tier.pick(20_000, 200_000) },
             Part { name: "random".into(), strategy: s, cases: tier.pick(150_000, 3_000_000) },
             Part { name: "nullable-shapes".into(), strategy: s2, cases: tier.pick(150_000, 3_000_000) },
+            Part { name: "scaled".into(), strategy: super::c01::scaled_part(&cfg, "ims"), cases: tier.pick(20_000, 300_000) },
         ]
     }
     fn enumerations(&self, tier: Tier) -> Vec<(String, String, Box<dyn Iterator<Item = AstCase> + Send>)> {
